@@ -261,7 +261,7 @@ func main() {
 		return
 	}
 	r := report.New("C17", tier, "model_checking")
-	r.Rule = "E1: every structure tree of the five WKT-encodable types with 1..3 members and 1..3(4) vertices per member x every rotation of 19 finite float64 patterns (full product for points, and each pattern repeated on consecutive vertices): the text must be accepted by an independent recursive-descent parser of the OGC WKT grammar and parse to the same type, nesting and bit-identical coordinates; the bytes returned by Encode unchanged by later Encode calls (two- and three-call histories); MultiPoint, GeometryCollection and *Bounds must be rejected with an error. Non-trivial = geometries with >= 2 members."
+	r.Rule = "E1: every structure tree of the five WKT-encodable types with 1..3 members and 1..3(4) vertices per member x every rotation of 19 finite float64 patterns (full product for points, each pattern repeated on consecutive vertices, and every ordered pattern pair alternating between neighbouring vertices in the same ordinate): the text must be accepted by an independent recursive-descent parser of the OGC WKT grammar and parse to the same type, nesting and bit-identical coordinates; the bytes returned by Encode unchanged by later Encode calls (two- and three-call histories); MultiPoint, GeometryCollection and *Bounds must be rejected with an error. Non-trivial = geometries with >= 2 members."
 	cfg := geomgen.Config{MaxMembers: 3, Lens: []int{1, 2, 3}, FlatMax: 3, PolyRings: 2}
 	if tier == "thorough" {
 		cfg = geomgen.Config{MaxMembers: 3, Lens: []int{1, 2, 3, 4}, FlatMax: 5, PolyRings: 3}
@@ -274,6 +274,15 @@ func main() {
 	}
 	r.Set("skeletons", len(skels))
 	np := len(geomgen.FinitePatterns)
+	// pattern indices of the alternating-neighbour family: -0, 5e-324, 0.1, 1e21,
+	// -1.5, 100, 0 in the quick tier, all patterns in the thorough tier
+	altPatterns := []int{0, 1, 3, 5, 13, 17, 18}
+	if tier == "thorough" {
+		altPatterns = nil
+		for i := range geomgen.FinitePatterns {
+			altPatterns = append(altPatterns, i)
+		}
+	}
 	var n, nontrivial int64
 	// sequential history pass (one goroutine, so any sharing between calls is
 	// deterministic): Encode(a), Encode(b), Encode(c); every earlier result
@@ -329,6 +338,24 @@ func main() {
 				pair[j] = (a + j%2) % np
 			}
 			run(Case{Skel: s, Pair: pair})
+		}
+		// neighbouring vertices: every ordered pattern pair (a,b) alternating along
+		// the vertex list in the same ordinate (x: a,b,a,.. y: b,a,b,..), so
+		// that consecutive vertices differ only in, e.g., the sign of a zero
+		if s.NPoints() >= 2 {
+			for _, a := range altPatterns {
+				for _, b := range altPatterns {
+					pair := make([]int, 2*s.NPoints())
+					for j := range pair {
+						if (j/2+j%2)%2 == 0 {
+							pair[j] = a
+						} else {
+							pair[j] = b
+						}
+					}
+					run(Case{Skel: s, Pair: pair})
+				}
+			}
 		}
 		if i%40 == 0 {
 			enc, _ := wkt.Encode(build(Case{Skel: s, Rot: i % np}))
